@@ -57,6 +57,11 @@ ENTRIES = [
     # --- C09: reclaim
     dict(props=["C09"], body="re:^<" + re.escape(B) + r"::reclaimer::Reclaimer.* as .*ReclaimerTrait>::reclaim::\{closure#0\}$", call=r"indexer::Indexer::remove_batch$", start="entry",
          why="entries of a reclaimed block that are not re-inserted are removed from the index"),
+    # --- C05 / C13: the memory index hands back the record it replaced
+    dict(props=["C05", "C13"], body=("foyer_memory::indexer::hash_table::HashTableIndexer", "insert", "Indexer"), call=r"mem::swap$|mem::replace$|OccupiedEntry::<'a, T, A>::insert$", start=("arm", "Occupied"),
+         why="inserting an existing key swaps the new record into the slot and returns the OLD one: the caller subtracts the returned record's weight and notifies its replacement"),
+    dict(props=["C05", "C13"], body=("foyer_memory::indexer::hash_table::HashTableIndexer", "insert", "Indexer"), call=r"VacantEntry::<'a, T, A>::insert$", start=("arm", "Vacant"),
+         why="inserting a new key stores the record"),
     # --- the Engine trait forwards to the block engine
     dict(props=["C01", "C12"], body=(B + "::engine::BlockEngine", "enqueue", "Engine"), call=r"engine::BlockEngine::<K, V, P>::enqueue$", start="entry", why="Engine::enqueue forwards to the block engine"),
     dict(props=["C01"], body=(B + "::engine::BlockEngine", "delete", "Engine"), call=r"engine::BlockEngine::<K, V, P>::delete$", start="entry", why="Engine::delete forwards to the block engine"),
